@@ -81,3 +81,24 @@ package ixbuf
 
 //@ func goal(n) (r)
 //@   ensures! r == (n < 256 ? 24 : n < 1024 ? 48 : n < 4096 ? 96 : n < 16384 ? 192 : n < 65536 ? 384 : 768)
+
+// ---- merging: a chunk is passed through whole only when that keeps keys unique ----------
+// Only passthru's guard is under contract. The k-way selection loop merge(),
+// outputSlot, flushbuf and the body of outputChunk are NOT verified: outputChunk's
+// contract below is assumed (it appends the chunk after everything already output,
+// so uniqueness at the junction needs its first key to be strictly above what
+// was output), and passthru's precondition is what merge() must establish (the
+// chunk with the minimum first key is never below the output so far).
+//@ spec outBelow(m *merge, k string) bool = (len(m.out) > 0 ==> m.out[len(m.out) - 1][len(m.out[len(m.out) - 1]) - 1].key < k) && (len(m.buf) > 0 ==> m.buf[len(m.buf) - 1].key <= k)
+//@ spec outStrictlyBelow(m *merge, k string) bool = outBelow(m, k) && (len(m.buf) > 0 ==> m.buf[len(m.buf) - 1].key < k)
+
+//@ func (m *merge) outputChunk(c)
+//@   assumed
+//@   requires m != nil && len(c) >= 1 && outStrictlyBelow(m, c[0].key)
+//@   modifies all
+
+//@ func (m *merge) passthru(in, i) (r)
+//@   requires m != nil && 0 <= i && i < len(in) && len(m.in) <= len(in) && (forall j :: 0 <= j && j < len(in) ==> len(in[j]) >= 1) && outBelow(m, in[i][0].key)
+//@   modifies all
+//@   loop 0 invariant 0 <= j && j < len(m.in)
+//@   loop 0 decreases len(m.in) - j
